@@ -48,7 +48,7 @@ func vMapOnly() *Map[int, int] { ks, xs := maps.VPairs(false); return VGMapOf(ks
 // VHEnum: Each/Any/All/Find/Select/Map with arbitrary predicate and mapping functions (C14).
 func VHEnum() {
 	m := vMapOnly()
-	containers.VEnumStep(containers.VEnum{Recv: m,
+	containers.VEnumStep(containers.VEnum{Recv: m, Inv: func(c any) { VInv(c.(*Map[int, int])) },
 		Seq: func(c any) ([]int, []int) {
 			r := c.(*Map[int, int])
 			ks := r.Keys()
@@ -113,4 +113,10 @@ func VHJSONLoad() {
 	ks, xs := maps.VPairs(false)
 	c := VGMapOf(ks, xs)
 	containers.VJSONLoad(vJSON(c))
+}
+
+// VHHistory: D operations in a row from the constructor (see VMapHistory).
+func VHHistory() {
+	m := New[int, int]()
+	maps.VMapHistory(m, maps.VKind{Name: "LinkedHashMap", Ordered: true, Inv: func() { VInv(m) }})
 }
